@@ -185,7 +185,13 @@ impl Parser {
 
             if let Ok(num) = self.parse_string[start_index..idx].parse::<usize>() {
                 if let Ok(font_data) = general_purpose::STANDARD.decode(self.parse_string[idx + 1..].as_bytes()) {
-                    match BitFont::from_bytes(format!("custom font {num}"), &font_data) {
+                    // the payload is raw glyph data (256 glyphs of 1..=32 rows); only other lengths can be font files
+                    let font = if !font_data.is_empty() && font_data.len() % 256 == 0 && font_data.len() <= 256 * 32 {
+                        BitFont::load_plain_font(format!("custom font {num}"), &font_data)
+                    } else {
+                        BitFont::from_bytes(format!("custom font {num}"), &font_data)
+                    };
+                    match font {
                         Ok(font) => {
                             log::info!("loaded custom font {num}", num = num);
                             buf.set_font(num, font);
